@@ -128,7 +128,7 @@ class C08(EngineProp):
     technique = 'Lean 4 proof (per-stream wire monitor as an invariant of the engine model) + event-level differential correspondence'
     level_text = ('PARTIAL. Kernel-checked for every reachable state of the engine model and every event: c08_opens_with_request_own_parity (fresh non-zero id of own parity, the only frame queued is the request), '
                   'c08_positive_initial_request_n, c08_connection_frames_on_stream_zero (both over all runs, via the invariant Inv08 carried by Ext), c08_types_per_role_api, c08_types_on_receive, c08_no_frames_on_loss, '
-                  'c08_unregistered_stream_silent_partial, c08_own_terminal_unregisters and c08_nothing_after_own_terminal_from_peer (request-response / request-stream, both roles: queueing the own terminal frame unregisters the stream and nothing the peer sends afterwards makes the endpoint emit on it again). The clause "after its own ERROR / requester CANCEL it emits nothing further on that stream" is FALSE of the code for request-channel '
+                  'c08_unregistered_stream_silent_partial, c08_own_terminal_unregisters and c08_nothing_after_own_terminal_from_peer (request-response / request-stream, both roles: queueing the own terminal frame unregisters the stream and nothing the peer sends afterwards makes the endpoint emit on it again), c08_request_frame_precedes_on_subscribe (every requester entry point that hands out the subscription has queued the request frame immediately before: the ordering defect F18 repaired). The clause "after its own ERROR / requester CANCEL it emits nothing further on that stream" is FALSE of the code for request-channel '
                   '(c08_half_close_counterexample is the model witness; the check replays it on the implementation: known finding F16) and for lease-held requests (F10, client scenario, not in the engine model); '
                   'for those the evidence is the wire monitor over generated histories only. SETUP first and once is C16 (c16_*), lease gating C14.')
     level_note = 'Trusted: as C07. SETUP-first is checked by C16; lease-gated requests by C14.'
